@@ -292,8 +292,9 @@ def parse_res(line):
     m = re.match(r'RES (\S+) end=(\S+)(?: [^ ]*=\S+)*? steps=(\d+) corr=(.*?) ;; mon=(.*?)(?: ;; hb=(.*))?$', line)
     if not m:
         return {'id': '?', 'end': '?', 'steps': 0, 'corr': 'unparsed: ' + line, 'mon': '?', 'hb': 'ok'}
+    m2 = re.search(r' proto=(\S+) steps=', line)
     return {'id': m.group(1), 'end': m.group(2), 'steps': int(m.group(3)), 'corr': m.group(4), 'mon': m.group(5),
-            'hb': m.group(6) or 'ok'}
+            'hb': m.group(6) or 'ok', 'proto': m2.group(1) if m2 else ''}
 
 
 def merge_stats(a, b):
